@@ -224,6 +224,9 @@ def run(ck):
     ck.floor("SIB/ref-writes", refwrites.check(ck, P, "SIB/ref-writes", only={"deflate.c:deflateParams", "deflate.c:deflateTune",
              "deflate.c:deflatePrime", "inflate.c:inflatePrime", "inflate.c:inflateSync", "deflate.c:deflateSetDictionary",
              "inflate.c:inflateSetDictionary", "deflate.c:deflateResetKeep", "inflate.c:inflateResetKeep", "inflate.c:inflateReset2"}), 30)
+    # a requested leave (Z_BLOCK / Z_TREES) that loses its place makes the next call return a status zlib-ng does not
+    from . import c04 as _c04
+    _c04.voluntary_leave(ck, P)
     P5 = prog("K5")
     ck.configs.add("K5")
     symbols(ck, P5)
